@@ -616,6 +616,10 @@ func init() {
 				cases = append(cases, &flowCase{Index: i, Seed: seed, Cfg: cfg, Vdr: modes[i%3],
 					DelayMs: []int{0, 80, 250}[(i/3)%3], Delays: hook[i%len(hook)], Race: !c.Quick() && i%4 == 0,
 					Template: fileTmplFor(i)})
+				if i%2 == 0 {
+					// output files in sub-directories of the files directory
+					cases[len(cases)-1].Tweak = func(s *pgen.Spec) { s.NestFilesPct = 40 }
+				}
 				if fc := cases[len(cases)-1]; fc.Template == pgen.NTemplates+8 {
 					// skeleton 7: a consumer that fails transiently and is retried
 					// must still find the producer's files
@@ -740,6 +744,9 @@ func init() {
 					Tweak: func(s *pgen.Spec) {
 						s.PMissingFile = 12
 						s.PNull = 8
+						if big || i%4 == 2 {
+							s.NestFilesPct = 40
+						}
 						if outside {
 							s.OutsideDir = filepath.Join(filepath.Dir(s.PsRoot), "outside")
 						}
@@ -772,6 +779,10 @@ func init() {
 				cases = append(cases, &flowCase{Index: i, Seed: seed, Cfg: cfg, Vdr: modes[i%3],
 					DelayMs: []int{0, 50, 150}[(i/3)%3], Delays: hook[i%len(hook)], Race: !c.Quick() && i%4 == 0,
 					Template: fileTmplFor(i)})
+				if i%2 == 1 {
+					// output files in sub-directories of the files directory
+					cases[len(cases)-1].Tweak = func(s *pgen.Spec) { s.NestFilesPct = 40 }
+				}
 				if i%5 == 2 {
 					// interruption and restart between partial and final cleanup: a
 					// handled signal at a VDR point (the removal + report of one
